@@ -116,6 +116,13 @@ check('C04', 'exploration', "online trace checker: every solved instant of repor
       'resolve by priority; a point where the reference model and EPANET disagree is never held against WNTR.',
       'Trusted: libepanet 2.2 shipped with the repository; the timeline model encodes EPANET conventions (rules from the first rule step on, "=" at the first evaluation at or after the instant).', 'DESIGN.md#C04')
 
+check('C05', 'exploration', "offline trace checker over every solved instant (report 'ALL') + hook on the control-commanded link status at save_results: every definitely-true simple control vs the reported target state, with re-derived legitimate exceptions, and a threshold-overshoot bound",
+      'Fill/drain rigs with small tanks (thresholds crossed several per hydraulic step), hysteresis pairs, pressure controls, priorities, and random '
+      'networks with tank/pressure controls: at every solved instant every control whose condition holds beyond the solver tolerance must be reflected by '
+      'its target (closed means reported closed; open unless check valve / pump shut-off / tank limit re-derived from the reported heads; conflicting '
+      'possibly-true controls are skipped); when a tank-level control switches its target, the level is within 2 s of tank flow of the threshold.',
+      'Margins: 1.524e-4 m + 2 s of tank flow. Non-converging runs are inconclusive.', 'DESIGN.md#C05')
+
 NOT_YET = 'monitor not built yet in this commit (planned in DESIGN.md section 4)'
 ALL = ['C%02d' % i for i in range(1, 21)]
 
